@@ -18,19 +18,20 @@ import (
 )
 
 type Scenario struct {
-	Side    string   `json:"side"`              // sink | visitor
-	Target  string   `json:"target"`            // encoder format or producer name
-	Options []string `json:"options,omitempty"` // json encoder options
-	Stream  string   `json:"stream,omitempty"`  // event ops (sink side, adapters)
-	Doc     string   `json:"doc_hex,omitempty"` // parser producers
-	Entry   string   `json:"entry,omitempty"`
-	Cuts    []int    `json:"cuts,omitempty"`
-	Reads   []int    `json:"read_sizes,omitempty"`
-	BufSize int      `json:"bufsize,omitempty"`
-	Type    string   `json:"go_type,omitempty"` // fold producers
-	Value   string   `json:"go_value,omitempty"`
-	K       int      `json:"k"`
-	Total   int      `json:"total"`
+	Side       string   `json:"side"`              // sink | visitor
+	Target     string   `json:"target"`            // encoder format or producer name
+	Options    []string `json:"options,omitempty"` // json encoder options
+	Stream     string   `json:"stream,omitempty"`  // event ops (sink side, adapters)
+	Doc        string   `json:"doc_hex,omitempty"` // parser producers
+	Entry      string   `json:"entry,omitempty"`
+	Cuts       []int    `json:"cuts,omitempty"`
+	Reads      []int    `json:"read_sizes,omitempty"`
+	BufSize    int      `json:"bufsize,omitempty"`
+	WriterKind int      `json:"writer_kind,omitempty"` // simkit.Writer.AsWriter: 1 +io.ByteWriter, 2 +io.StringWriter, 3 both
+	Type       string   `json:"go_type,omitempty"`     // fold producers
+	Value      string   `json:"go_value,omitempty"`
+	K          int      `json:"k"`
+	Total      int      `json:"total"`
 }
 
 type Engine struct{}
@@ -40,7 +41,15 @@ type injErr struct{ k int }
 func (e *injErr) Error() string { return fmt.Sprintf("injected failure #%d", e.k) }
 
 // newEncoder builds a real encoder over w.
-func newEncoder(f model.Format, w io.Writer, opts []string) structform.ExtVisitor {
+// writerKind is the interface set through which the current run's encoders see
+// their writer (set by the sink scenarios before any encoder is built).
+var writerKind int
+
+func newEncoder(f model.Format, w0 io.Writer, opts []string) structform.ExtVisitor {
+	w := w0
+	if sw, ok := w0.(*simkit.Writer); ok {
+		w = sw.AsWriter(writerKind)
+	}
 	switch f {
 	case model.JSON:
 		v := sfjson.NewVisitor(w)
@@ -93,6 +102,12 @@ func (Engine) Run(c *simkit.Choices, x *simkit.Ctx) *simkit.Violation {
 // sinkFaults: the io.Writer behind an encoder fails at write k and keeps failing.
 func sinkFaults(c *simkit.Choices, x *simkit.Ctx) *simkit.Violation {
 	st := x.Stats
+	writerKind = 0
+	if c.N(3) == 0 {
+		writerKind = 1 + c.N(3) // the writer also offers io.ByteWriter / io.StringWriter
+		st.Fault("writer-interface-variety")
+	}
+	defer func() { writerKind = 0 }()
 	f := model.Formats[c.N(3)]
 	var opts []string
 	if f == model.JSON {
@@ -122,7 +137,7 @@ func sinkFaults(c *simkit.Choices, x *simkit.Ctx) *simkit.Violation {
 	ks := pickKs(c, total)
 	failCount := c.N(3) // the failing write reports 0, len(p) or len(p)/2 bytes with its error
 	for _, k := range ks {
-		sc := &Scenario{Side: "sink", Target: string(f), Options: opts, Stream: model.OpsString(ops, 60), K: k, Total: total, BufSize: failCount}
+		sc := &Scenario{Side: "sink", Target: string(f), Options: opts, Stream: model.OpsString(ops, 60), K: k, Total: total, BufSize: failCount, WriterKind: writerKind}
 		simkit.SetCurrent(sc)
 		st.Eval(1)
 		st.Fault("write-fails-from-k")
@@ -172,6 +187,12 @@ func sinkFaults(c *simkit.Choices, x *simkit.Ctx) *simkit.Violation {
 // fails from write k: Fold (the whole call sequence) must report an error.
 func foldSinkFaults(c *simkit.Choices, x *simkit.Ctx) *simkit.Violation {
 	st := x.Stats
+	writerKind = 0
+	if c.N(3) == 0 {
+		writerKind = 1 + c.N(3) // the writer also offers io.ByteWriter / io.StringWriter
+		st.Fault("writer-interface-variety")
+	}
+	defer func() { writerKind = 0 }()
 	f := model.Formats[c.N(3)]
 	var opts []string
 	if f == model.JSON {
@@ -224,6 +245,12 @@ func foldSinkFaults(c *simkit.Choices, x *simkit.Ctx) *simkit.Violation {
 // parsing call must report an error (both clauses of the property composed).
 func pipeSinkFaults(c *simkit.Choices, x *simkit.Ctx) *simkit.Violation {
 	st := x.Stats
+	writerKind = 0
+	if c.N(3) == 0 {
+		writerKind = 1 + c.N(3) // the writer also offers io.ByteWriter / io.StringWriter
+		st.Fault("writer-interface-variety")
+	}
+	defer func() { writerKind = 0 }()
 	sf, df := model.Formats[c.N(3)], model.Formats[c.N(3)]
 	src := common.ByName(sf)
 	doc := common.GenDoc(c, sf, model.QuickOpts(), 1)
